@@ -59,6 +59,17 @@ def describe(f, ev):
     return "%s(%s)%s observed %s: rejected by Helpers.tla" % (ev.get("ev"), txt(arg), extra, json.dumps(obs, sort_keys=True))
 
 
+def shards_for(ck, path):
+    """ck.validate extracts the trace of every rejected event by scanning its shard: small shards keep that cheap when a
+    change of the code breaks thousands of executions; from 200000 lines per shard on it uses an indexed look-up."""
+    n = sum(1 for _ in open(path))
+    return max(1, n // 220000) if n >= 220000 else max(1, min(ck.cores, n // 1500))
+
+
+def validate(ck, path):
+    return ck.validate("text", "HelpersTrace", "HelpersTrace.cfg", path, shards=shards_for(ck, path))
+
+
 def judge(ck, fails, origin):
     for f in fails:
         sig, ev = sig_of(f)
@@ -132,7 +143,7 @@ def run(ck):
     # --- verdicts: the property-level trace specification judges all mismatching and sampled replay executions, and all recorded ones
     rejected = set()
     for fam in FAMS:
-        fails = ck.validate("text", "HelpersTrace", "HelpersTrace.cfg", ck.path("replay-%s.ndjson" % fam))
+        fails = validate(ck, ck.path("replay-%s.ndjson" % fam))
         rejected |= {(fam, f["t"]) for f in fails}
         judge(ck, fails, "replay of TLC-enumerated function table '%s'" % fam)
         # an expectation of the generator that the property-level spec does not insist on is drift, not a violation
@@ -142,7 +153,7 @@ def run(ck):
             ck.notes.append("MODEL-DRIFT: %d replay executions of '%s' differ from the generator's expectation but are accepted by Helpers.tla" % (len(drift), fam))
         if sums[fam]["undetermined_diff"]:
             ck.notes.append("%d malformed escapes are not left as they are by DecodeURL (allowed: the statement is silent there)" % sums[fam]["undetermined_diff"])
-    judge(ck, ck.validate("text", "HelpersTrace", "HelpersTrace.cfg", ck.path("record.ndjson")), "recorded random calls")
+    judge(ck, validate(ck, ck.path("record.ndjson")), "recorded random calls")
     ck.assumptions += ["class representatives rotate with position and VERIF_SEED; expectations are computed by TLC on the concrete bytes",
                        "hash constants are read from the trailing comments of <pkg>/hash.go; encoding-table membership is logged per byte by the harness",
                        "DecodeURL on malformed escapes, Dimension's unit when there is no number, parameters inside DataURI's media type, "
